@@ -169,7 +169,7 @@ PROPERTIES = {
     },
     "C05": {
         "title": "Wire codecs are total, round-trip exactly and follow the RFC 9000 layout",
-        "steps": [seq("c05.*")],
+        "steps": [seq("c05.*", "c08.pnum")],
         "technique": "bounded-exhaustive input enumeration (all short byte strings, boundary-alphabet strings, boundary-value field tuples, all 1-/2-byte mutations of valid messages) against an independent RFC 9000 parser",
         "level_text": "2.6e8 (quick) / 2.7e9 (thorough) inputs: every byte string of length <= 3 and every string of length <= 6/7 over {00,01,3f,40,7f,80,bf,c0,ff} after each first byte, for frame sequences, packet headers (all 256 first bytes, versions 0/1), transport-parameter blocks, varints and s2n-codec primitives; 8 007 frame field tuples, 3 039 generated datagrams and 6 726 parameter sets over boundary values encoded by the real encoders; every single-byte substitution (all positions x 256) and (thorough) every 2-byte substitution of those messages. Oracles: no panic / out-of-bounds (debug assertions and overflow checks on), every successful frame decode consumes >= 1 byte (no endless loop), decode(encode(x)) == x, encoding_size == bytes written, an independently written RFC 9000 16-19 / RFC 8999 / RFC 9221 parser returns the same value-or-error (strict where the RFC mandates an error at parse time, lenient-with-equal-value where it leaves freedom), varints in shortest form.",
         "level_note": "Inputs longer than the bounds that are not generated messages or their mutations are not covered; strict agreement only for versions 0/1. Two listed known findings (long-header Length field not shortest form; ack_delay_exponent decoded as one byte). Packet-number truncation is C08, acceptance rules C14.",
